@@ -44,7 +44,7 @@ def plan(tier):
 
 def required_regimes(tier):
     return {'l1:odd_rows', 'l1:odd_cols', 'l2+:pad_both', 'l2+:pad_rows_only', 'l2+:pad_cols_only', 'l2+:pad_none',
-            'closure:self_loop', 'size:h!=w', 'image_smaller_than_filter'}
+            'closure:self_loop', 'size:h!=w', 'image_smaller_than_filter', 'variant:N=1', 'variant:C=2'}
 
 
 def run(item):
@@ -93,6 +93,23 @@ def run(item):
         if d is not None:
             res.violation('analysis_vs_reference', cfg, d, tags)
         res.op(Ai)
+        if P <= 100:
+            # a batch of one (N=1) and two channels (channel 1 = the basis in reverse order) reproduce the extracted rows
+            try:
+                l1, h1 = dtc.impl_forward(b, q, X[:1], J)
+                l2, h2 = dtc.impl_forward(b, q, np.concatenate([X, X[::-1]], axis=1), J)
+                res['impl_calls'] += 2
+                res.regime('variant:N=1', 'variant:C=2')
+                one = [l1.numpy()] + [t.numpy() for t in h1]
+                two = [l2.numpy()] + [t.numpy() for t in h2]
+                full = [yl.numpy()] + [t.numpy() for t in yh]
+                for a1, a2, a in zip(one, two, full):
+                    e2 = np.concatenate([a, a[::-1]], axis=1)
+                    if a1.shape != a[:1].shape or common.maxabs(a1 - a[:1]) > common.TOL or a2.shape != e2.shape or common.maxabs(a2 - e2) > common.TOL * max(1.0, common.maxabs(e2)):
+                        res.violation('analysis_vs_reference', dict(cfg, variant='N=1 / C=2'), {'kind': 'value_or_shape', 'shapes': [list(a1.shape), list(a2.shape)]}, tags)
+                        break
+            except Exception as e:
+                res.violation('analysis_vs_reference', dict(cfg, variant='N=1 / C=2'), {'kind': 'raise', 'exc': repr(e)[:200]}, tags)
         if (H, W, J) in ((5, 6, 2), (7, 10, 3)):
             res.sample({'config': cfg, 'impulses': P, 'band_shapes': si, 'path': [[st[0], list(st[1]), list(st[2])] for st in pth[:J]]})
     # direct (non-prefix) reference call on a sample of states
